@@ -3,6 +3,8 @@ package main
 import (
 	"fmt"
 	"math"
+	"runtime"
+	"sync"
 
 	"github.com/dgryski/go-metro"
 	"github.com/kwertop/gostatix"
@@ -89,6 +91,7 @@ func suiteBloom(c *Ctx) {
 		cfg := randBloomCfg(c, i)
 		bloomCase(c, cfg, i)
 	}
+	bloomConcurrent(c)
 	// small-scope exhaustive: all histories of length <= L over 3 elements for sizes 1..6
 	if c.thorough() {
 		bloomExhaustive(c)
@@ -269,4 +272,51 @@ func bloomExhaustive(c *Ctx) {
 		}
 	}
 	c.rep.Branches["exhaustive-histories"] = count
+}
+
+// bloomConcurrent: several goroutines insert disjoint element sets into ONE in-memory filter whose
+// bits share words (one hash function); no inserted element may be absent afterwards.  (The lock
+// discipline itself is C07; this is the no-false-negative clause under concurrent inserts.)
+func bloomConcurrent(c *Ctx) {
+	rounds := c.scale(3, 20)
+	old := runtime.GOMAXPROCS(0)
+	if old < 4 {
+		runtime.GOMAXPROCS(4)
+		defer runtime.GOMAXPROCS(old)
+	}
+	for r := 0; r < rounds; r++ {
+		f, err := gostatix.NewMemBloomFilterWithParameters(4096, 0.5) // numHashes = 1
+		if err != nil {
+			return
+		}
+		c.rep.Cases++
+		const g, per = 8, 512
+		var wg sync.WaitGroup
+		start := make(chan struct{})
+		for w := 0; w < g; w++ {
+			wg.Add(1)
+			go func(w int) {
+				defer wg.Done()
+				<-start
+				for i := 0; i < per; i++ {
+					f.Insert([]byte(fmt.Sprintf("conc-%d-%d-%d", r, i, w)))
+				}
+			}(w)
+		}
+		close(start)
+		wg.Wait()
+		c.rep.Ops["Insert.concurrent"] += g * per
+		for w := 0; w < g; w++ {
+			for i := 0; i < per; i++ {
+				e := []byte(fmt.Sprintf("conc-%d-%d-%d", r, i, w))
+				if !f.Lookup(e) {
+					c.fail([]string{"C01", "C07"}, "bloom-false-negative-concurrent",
+						fmt.Sprintf("in-memory filter (size %d, 1 hash): element %q inserted by one of %d concurrent goroutines is reported absent", f.GetCap(), e, g),
+						map[string]interface{}{"goroutines": g, "elements_each": per, "round": r})
+					return
+				}
+			}
+		}
+		c.branch("concurrent-insert-round")
+	}
 }
